@@ -123,6 +123,12 @@ def is_smart_cls(c):
     return bool(c) and c.startswith(SMART)
 
 
+def _static_type(e):
+    if e.get("k") == "ctor":
+        return e.get("c", "")
+    return (e.get("t") or "").replace("const ", "").strip()
+
+
 def unwrap(e):
     """see through smart-pointer derefs, std::move/forward, copy/move ctors, casts to the
     underlying object expression"""
@@ -139,6 +145,12 @@ def unwrap(e):
                 continue
             return e
         if k == "ctor" and e.get("cm") and len(e["a"]) == 1:
+            e = e["a"][0]
+            continue
+        if k == "ctor" and len(e["a"]) == 1 and is_smart_cls(e.get("c", "")) and \
+           isinstance(e["a"][0], dict) and e["a"][0].get("k") in ("ref", "mem", "call", "ctor") and \
+           is_smart_cls(_static_type(e["a"][0])):
+            # converting constructor shared_ptr<base>(shared_ptr<derived>)
             e = e["a"][0]
             continue
         if k == "un" and e.get("op") in ("*",) :
@@ -441,7 +453,8 @@ class Report:
                 known_hits.append((f, hit))
             else:
                 viol.append(f)
-        os.makedirs(os.path.join(VERIF, "evidence"), exist_ok=True)
+        evdir = os.environ.get("VERIF_EVIDENCE_DIR", os.path.join(VERIF, "evidence"))
+        os.makedirs(evdir, exist_ok=True)
         for f, k in known_hits:
             print("KNOWN-FINDING: property=%s rule=%s %s at %s: %s" %
                   (self.prop, f["rule"], f["key"], f["where"], k.get("what", f["msg"])))
@@ -449,7 +462,7 @@ class Report:
                                  "verdict": "known-finding", "msg": f["msg"]})
         replay = None
         if viol:
-            rdir = os.path.join(VERIF, "evidence", "replay")
+            rdir = os.path.join(evdir, "replay")
             os.makedirs(rdir, exist_ok=True)
             replay = os.path.join(rdir, "%s.json" % self.prop)
             json.dump({"property": self.prop, "tier": self.tier, "violations": viol},
@@ -479,7 +492,7 @@ class Report:
               "assumptions": self.assumptions + [
                   "clang 14 front end resolves callees, templates and constants as the real compiler does (analysis flags: -std=c++14 -UNDEBUG; asserts are never counted as checks)"],
               "wall_s": round(wall, 2), "violations": len(viol)}
-        json.dump(ev, open(os.path.join(VERIF, "evidence", "%s.json" % self.prop), "w"), indent=1)
+        json.dump(ev, open(os.path.join(evdir, "%s.json" % self.prop), "w"), indent=1)
         if viol:
             print("VIOLATION property=%s replay=%s" % (self.prop, replay))
             return 1
